@@ -91,6 +91,12 @@ func (o c16HOp) apply(e *casbin.Enforcer) (res string) {
 	case "BuildRoleLinks":
 		err = e.BuildRoleLinks()
 		ok = true
+	case "ModelRemoveAndRebuild":
+		// the manual way: edit the model's rule list, then rebuild the role links from it
+		ok, err = e.GetModel().RemovePolicy("g", "g", a)
+		if err == nil {
+			err = e.BuildRoleLinks()
+		}
 	default:
 		panic("c16: bad history op " + o.K)
 	}
@@ -300,7 +306,7 @@ func (g *c16HGen) next(links [][3]string, policy [][]string) c16HOp {
 			}
 		}
 		return g.next(links, policy)
-	case x < 97:
+	case x < 94:
 		if dom {
 			if rng.Intn(2) == 0 {
 				return c16HOp{K: "DeleteAllUsersByDomain", A: []string{g.dom()}}
@@ -309,6 +315,10 @@ func (g *c16HGen) next(links [][3]string, policy [][]string) c16HOp {
 		}
 		return g.next(links, policy)
 	default:
+		if len(links) > 0 && rng.Intn(3) > 0 {
+			l := links[rng.Intn(len(links))]
+			return c16HOp{K: "ModelRemoveAndRebuild", A: g.grule(l[0], l[1], l[2])}
+		}
 		return c16HOp{K: "BuildRoleLinks"}
 	}
 }
